@@ -184,10 +184,19 @@ def run(ctx) -> None:
                   f"`{unparse(call)}` inside loops {[unparse(l.iter) for l in loops]}", loc=commit_fn.loc(call))
     # (c) chain update -> _try_update -> _update -> vcs.commit
     shapes.check_passthrough(ctx, "R3", "cli._update", "vcs.commit",
-                             {"new_version": "new_version", "commit_message": "commit_message", "tag_message": "tag_message", "filepaths": "filepaths"})
+                             {"new_version": "new_version", "commit_message": "commit_message", "tag_message": "tag_message",
+                              "filepaths": ("set(cfg.file_patterns.keys())", "set(cfg.file_patterns)")})
     shapes.check_passthrough(ctx, "R3", "cli._try_update", "cli._update",
                              {"new_version": "new_version", "commit_message": "commit_message", "tag_message": "tag_message"})
     upd = prog.function("cli.update")
+    # the shorthand expander: the internal function that update applies to the --commit-message / --tag-message option
+    sub_fns = set()
+    for call, t in prog.calls_in(upd):
+        if t.kind == "func" and t.fn is not None and len(call.args) == 1 and unparse(call.args[0]) in ("commit_message", "tag_message"):
+            sub_fns.add(t.fn.fq)
+    ctx.require(len(sub_fns) == 1, f"update: shorthand expander for --commit-message/--tag-message not identified ({sorted(sub_fns)})")
+    sub_fq = sub_fns.pop()
+    sub_name = sub_fq.split(".", 1)[1]
 
     def formatted(which: str) -> T.Callable[[T.Any, ast.AST], bool]:
         def pred(fn, e: ast.AST) -> bool:
@@ -198,7 +207,7 @@ def run(ctx) -> None:
 
             def src(x: ast.AST) -> bool:
                 txt = unparse(x)
-                return txt == f"cfg.{which}_message" or (isinstance(x, ast.Call) and unparse(x.func) == "_sub_msg_template"
+                return txt == f"cfg.{which}_message" or (isinstance(x, ast.Call) and unparse(x.func) == sub_name
                                                          and unparse(x.args[0]) == f"{which}_message")
             return shapes.flows_from(fn, tm, src)
         pred.__doc__ = f"cfg.{which}_message / --{which}-message template .format(**kwargs)"
@@ -227,9 +236,9 @@ def run(ctx) -> None:
                       f"cli.update: message placeholder {{{k}}} carries the wrong value",
                       f"{{{k}}} is `{txt}`, expected `{exp}`", loc=upd.loc(c))
     # (e) OLD/NEW shorthand
-    sub = prog.function("cli._sub_msg_template")
+    sub = prog.function(sub_fq)
     subs = [c for c in ast.walk(sub.node) if isinstance(c, ast.Call) and unparse(c.func) == "re.sub"]
-    ctx.require(len(subs) == 1, "_sub_msg_template no longer a single re.sub")
+    ctx.require(len(subs) == 1, f"{sub_name} no longer a single re.sub")
     pat, rep = const_str(subs[0].args[0]), const_str(subs[0].args[1])
     ctx.check("R3", pat == r"\b(OLD|NEW)\b" and rep == r"{\1_VERSION}",
               "_sub_msg_template maps \\b(OLD|NEW)\\b to {\\1_VERSION}",
